@@ -217,6 +217,15 @@ void shmem_finish(struct mcount_thread_data *mtdp)
 			finish_shmem_buffer(mtdp, curr);
 	}
 
+	if (shmem->losts) {
+		/*
+		 * records were dropped and the thread ends before another buffer
+		 * could carry a LOST record: at least tell uftrace how many.
+		 */
+		uftrace_send_message(UFTRACE_MSG_LOST, &shmem->losts, sizeof(shmem->losts));
+		shmem->losts = 0;
+	}
+
 	shmem->done = true;
 	shmem->curr = -1;
 
